@@ -58,6 +58,12 @@ CHECKS = {
    note="Trusted: exactlp, exact rational null space. add_loopless part: <= 6 cycle reactions, finite bounds, zero threshold max_bound x tolerance x 10.",
    technique="runtime oracle monitor (exact cycle-removal LP, sign-pattern enumeration)",
    ref="DESIGN.md §4 C17"),
+ "C19": dict(
+   level="exploration",
+   text="Exact oracle monitor: blocked <=> exact rational FVA range [0,0] without objective requirement (exchanges opened to +-1000 when asked). find_blocked_reactions (list None/objects/ids/partial, open_exchanges, 1-2 processes) must return exactly the blocked ids; fastcc must keep exactly the unblocked reactions unchanged, leave none blocked, and not touch its input (whole-state snapshot).",
+   note="Trusted: exactlp. Models whose bounds include zero; calls where a requested range is unbounded are domain-skipped; default thresholds.",
+   technique="runtime oracle monitor (exact FVA without objective)",
+   ref="DESIGN.md §4 C19"),
  "C15": dict(
    level="fault_enumeration",
    text="Reference-model monitor in lock-step with the real DictList: bounded-exhaustive operation sequences (every index in [-n-2,n+1], every slice, every failing argument position) plus seeded random long sequences; coherence, list-semantics equality and unchanged-on-raise judged after every step. Exhaustive within the stated bounds, sampled beyond.",
